@@ -283,6 +283,51 @@ def run(ctx, model_ok):
         k = len(cases) // 2
         ctx.sample({"stream": label, "tag": list(cases[k][0]), "src": cases[k][1], "expected": cases[k][2], "impl": cimpl[k]})
 
+    # a use refers to the innermost declaration that HAS BEEN EXECUTED: a declaration later in the same block (`:=`, `fn`, a
+    # pattern) does not capture the uses before it; and a scope ends however its block is left (normally, by break,
+    # continue, return): its declarations are gone afterwards, the outer ones are visible again
+    order = []
+    DECLS = [("var", 'N := "inner"', "N"), ("fn", 'fn N() {\n        return "inner"\n    }', "N()"), ("pattern", '[N, z_] := ["inner", 0]', "N"),
+             ("object-pattern", '{N} := {"N": "inner"}', "N"), ("fn-expression", 'N := fn () {\n        return "inner"\n    }', "N()")]
+    BLOCKS = [("bare-block", "{\n@B}\n"), ("if", "if true {\n@B}\n"), ("else", "if false {\n    print(0)\n} else {\n@B}\n"),
+              ("while-once", "once := true\nwhile once {\n    once = false\n@B}\n"), ("for", "for [i_, v_] in [1] {\n@B}\n"),
+              ("function", "fn run_() {\n@B    return 0\n}\nrun_()\n"), ("method", 'o_ := {"m": fn () {\n@B    return 0\n}}\no_.m()\n'),
+              ("nested", "{\n    {\n@B    }\n}\n")]
+    for dk, decl, use in DECLS:
+        for outer_fn in (False, True):
+            outer = 'fn N() {\n    return "outer"\n}\n' if outer_fn else 'N := "outer"\n'
+            ouse = "N()" if outer_fn else "N"
+            for bk, tmpl in BLOCKS:
+                body = f"    print({ouse})\n    {decl}\n    print({use})\n"
+                src = (outer + tmpl.replace("@B", body) + f"print({ouse})\n").replace("N", "tag")
+                order.append((("declaration-order", dk, "outer-fn" if outer_fn else "outer-var", bk), src, "outer\ninner\nouter\n"))
+    LEAVES = [("normal", ""), ("break", "        break\n"), ("continue", "        continue\n")]
+    for lk, leave in LEAVES:
+        for loop, head in (("while", "n := 0\nwhile n < 2 {\n    n += 1\n"), ("for", "for [i_, v_] in [1, 2] {\n")):
+            src = ('tmp := "outer"\n' + head + '    print(tmp)\n    {\n        tmp := "body"\n        print(tmp)\n    }\n    tmp2 := "it"\n    if true {\n'
+                   + '        shadow := tmp2\n' + leave + '    }\n}\nprint(tmp)\n')
+            n_it = 1 if lk == "break" else 2
+            order.append((("loop-scope", lk, loop, "outer-visible-again"), src, "outer\nbody\n" * n_it + "outer\n"))
+            src2 = (head + '    tmp := "it"\n    if true {\n' + leave + '    }\n}\nprint("after")\nprint(tmp)\n')
+            order.append((("loop-scope", lk, loop, "body-local-gone"), src2, None))
+    oimpl, odis = tie.run(ctx, [c[1] for c in order], "declaration_order", model_ok, project=tie.proj_full)
+    obad = set()
+    for (tag, src, out), r in zip(order, oimpl):
+        ctx.nontrivial(tag)
+        ctx.dist("declaration_order:" + tag[0])
+        if out is None:
+            ok = r["status"] == "103" and r["stdout"] == "after\n" and "'tmp' is not defined" in r["stderr"]
+            exp = ("after\n", "103")
+        else:
+            ok = (r["stdout"], r["status"]) == (out, "0")
+            exp = (out, "0")
+        if not ok:
+            obad.add(src)
+            rep.report(f"{' / '.join(tag)}: lexical scoping predicts status {exp[1]} and stdout {exp[0]!r}; the implementation gives status "
+                       f"{r['status']} and stdout {r['stdout']!r} ({r['stderr'][:120]!r})", "declaration-order", src,
+                       expect=exp if out is not None else None)
+    tie.report_disagreements(ctx, [d for d in odis if d[0] not in obad], "declaration_order")
+
     # random structured programs
     n = 60000 if thorough else 8000
     done = 0
